@@ -122,6 +122,7 @@ ChooseNet ==
 (* ------------------------------------------------------------------ edits *)
 (* every edit is a record with field k (kind) and parameters                 *)
 Unknowns(t) == {Template(t).pts[i].id : i \in {j \in 1..Len(Template(t).pts) : Template(t).pts[j].role = "unk"}}
+LastObs == 99         \* stands for the observation that comes last in the input document (last row of the project equations)
 EditsOf(kind) ==
   CASE kind = "Translate" -> {[k |-> "Translate", de |-> d[1], dn |-> d[2], du |-> d[3]] :
                                 d \in {<<5000000, -1000000, 300>>, <<-123, 456, -7>>, <<700000, 700000, 0>>}}
@@ -144,7 +145,7 @@ EditsOf(kind) ==
     [] kind = "AttachHeights" -> {[k |-> "AttachHeights", s |-> s] : s \in 1..2}
     [] kind = "MakeFree" -> {[k |-> "MakeFree", s |-> s] : s \in 1..6}
     [] kind = "Isolate" -> {[k |-> "Isolate", s |-> s] : s \in 1..2}
-    [] kind = "Blunder" -> {[k |-> "Blunder", obs |-> i, pct |-> pc, tol |-> tl] : i \in 1..8, pc \in {99, 101, 300}, tl \in {1, 10, 1000}}
+    [] kind = "Blunder" -> {[k |-> "Blunder", obs |-> i, pct |-> pc, tol |-> tl, sig |-> sg] : i \in 1..8 \cup {LastObs}, pc \in {99, 101, 300}, tl \in {1, 10, 1000}, sg \in {10, 3, 40}}
     [] kind = "ExcludeVsDelete" -> {[k |-> "ExcludeVsDelete", s |-> s] : s \in 1..3}
     [] OTHER -> {}
 
@@ -194,7 +195,7 @@ Law(e) ==
 Applicable(e) ==
   /\ (e.k = "MakeFree" => net.t \in {"tri2d", "trav2d", "polar3d", "lev1d"} /\ (e.s \in {5, 6} => Template(net.t).dim = 3))
   /\ (e.k = "Blunder" => net.noise = 0 /\ net.t \in {"tri2d", "dist2d", "polar3d", "fstat2d", "fstat3d", "lev1d"}
-                          /\ e.obs <= Len(Template(net.t).mand))
+                          /\ (e.obs <= Len(Template(net.t).mand) \/ e.obs = LastObs))
   /\ (e.k = "Isolate" => net.t \in {"tri2d", "dist2d", "polar3d"})
   /\ (e.k = "ChangeDatum" => net.t \in {"free2d"})
   /\ (e.k = "AddConsistentObs" => net.noise = 0)
